@@ -132,7 +132,9 @@ def check(run: Run) -> None:
             run.finding("C10.d", "map_evaluate_impl:not-due-evaluated", "a child can be evaluated although it is neither due nor resuming: " + fl.path_text(w), loc=MAP)
         from . import c15
         sub = Run("C10", run.tier, run.tree, quiet=True)
-        c15.check(sub)
+        sub.is_sub = True
+        if not getattr(run, "is_sub", False):
+            c15.check(sub)
         run.evaluations += sub.evaluations
         for f in sub.findings:
             if f.rule == "C15.d":
@@ -296,6 +298,16 @@ def check(run: Run) -> None:
         push = lambda x: x.kind == "call" and x.name in ("push_back", "emplace_back") and "membership_changed_keys" in x.recv
         if fl.nodes_of(push):
             R.k2_precede(run, "C10.k", fl, clr, push, "the per-cycle membership list is cleared before it is filled")
+
+    with run.obligation("C10.l", "K2+K7", "per-key isolation at stop: a child whose stop throws does not keep the children of the other keys from being stopped in the same "
+                        "pass (shared with C14.f, C14.f2)"):
+        from . import c14
+        R.share(run, "C10.l", c14, ["C14.f", "C14.f2"])
+
+    with run.obligation("C10.m", "K7", "per-key timers: after its pass the owner (keyed map_ and the dynamic-TSL map_) pulls the next wake-up of EVERY live child, not only of "
+                        "the ones it evaluated, so an idle key's pending timer is not overwritten by a sibling (shared with C09.d)"):
+        from . import c09
+        R.share(run, "C10.m", c09, ["C09.d"])
 
 
 VARIANTS = [
